@@ -59,6 +59,7 @@ type Profile struct {
 	PReenter     float64
 	PDigErr      float64 // share of error faults whose error wraps a foreign dig error
 	PCbPanic     float64 // share of callbacks that panic the first time they fire
+	PNamedSlice  float64 // share of group parameters / slice results declared with a named slice type
 	Invokes      [2]int
 	InvokeFaults bool
 }
@@ -69,7 +70,7 @@ func baseProfile() Profile {
 		MinFns: 2, MaxFns: 9, PGroupRes: 0.22, PFlatten: 0.3, PGroupPar: 0.2, PSoft: 0.3, POptional: 0.2, PNamed: 0.3,
 		PExport: 0.2, PAs: 0.08, PDecorate: 0.25, PGroupDec: 0.3, PBackEdge: 0.08, PGap: 0.08, PFault: 0, PPanic: 0.3,
 		PInvalid: 0.05, PDup: 0.05, PCallback: 0.15, PInfo: 0.1, PVisualize: 0.05, PDefer: 0.2, PRecover: 0.5,
-		PLateScope: 0.5, PNested: 0.3, PVariadic: 0.1, PViaOpt: 0.15, PMidInvoke: 0.25, Invokes: [2]int{2, 7},
+		PLateScope: 0.5, PNested: 0.3, PVariadic: 0.1, PViaOpt: 0.15, PMidInvoke: 0.25, Invokes: [2]int{2, 7}, PNamedSlice: 0.15,
 	}
 }
 
@@ -128,6 +129,7 @@ func (g *gen) randResults(n int, allowGroup bool) []Res {
 			if g.coin(g.p.PFlatten) {
 				r.Flatten = true
 				r.N = g.r.Intn(4)
+				r.Slice = g.randSlice()
 			}
 			rs = append(rs, r)
 			continue
@@ -175,7 +177,7 @@ func (g *gen) randParams(n int, s int, idx int) []Param {
 	for i := 0; i < n; i++ {
 		if g.coin(g.p.PGroupPar) {
 			if k, ok := g.pickKey(s, idx, true); ok {
-				ps = append(ps, Param{K: k, Soft: g.coin(g.p.PSoft)})
+				ps = append(ps, Param{K: k, Soft: g.coin(g.p.PSoft), Slice: g.randSlice()})
 				continue
 			}
 		}
@@ -222,6 +224,14 @@ func (g *gen) addFaults(f *Fn) {
 }
 
 // randEnc nests leaves 0..n-1 into objects. needObj[i]: leaf i needs tags and must be inside an object.
+// randSlice: 0 (the unnamed []T) or a named slice type family for a group parameter/result.
+func (g *gen) randSlice() int {
+	if g.noLay || !g.coin(g.p.PNamedSlice) {
+		return 0
+	}
+	return 1 + g.r.Intn(2)
+}
+
 // randLay draws a struct layout for an object (see Enc.Lay).
 func (g *gen) randLay(in bool) int {
 	if g.noLay {
@@ -450,9 +460,9 @@ func genHistory(r *rand.Rand, p Profile) *History {
 			if !ok {
 				gk = g.randGroupKey()
 			}
-			f.Results = []Res{{K: gk, Whole: true, N: g.r.Intn(4)}}
+			f.Results = []Res{{K: gk, Whole: true, N: g.r.Intn(4), Slice: g.randSlice()}}
 			if g.coin(0.75) {
-				f.Params = append(f.Params, Param{K: gk, Soft: g.coin(g.p.PSoft * 0.7)})
+				f.Params = append(f.Params, Param{K: gk, Soft: g.coin(g.p.PSoft * 0.7), Slice: g.randSlice()})
 			}
 		} else {
 			nk := 1
